@@ -7,6 +7,9 @@ ENGINES = [
     {"name": "crash", "path": "engine/crash.py", "serves_properties": [],
      "kind_free_text": "enumeration of every commit point (process death) and every statement (one transient OperationalError) of a "
      "workload on a real SQLite file, followed by consistency queries and recovery runs"},
+    {"name": "threads", "path": "engine/threads.py", "serves_properties": [],
+     "kind_free_text": "preemption-bounded exploration of real Python threads: sys.monitoring instruction-level scheduling points plus controlled "
+     "Lock/Event/Thread/time replacements in the target module, one thread running at a time (semaphore baton)"},
     {"name": "progs", "path": "engine/progs.py", "serves_properties": [],
      "kind_free_text": "exhaustive generator of typed workflow-program ASTs up to a size bound, builder into real redun expressions, "
      "and a reference interpreter returning the set of admissible outcomes"},
@@ -259,6 +262,16 @@ CHECKS += [
      "(thorough) lines chosen against the heredoc, plain and indented: the script file the wrapper writes must equal the reference-prepared "
      "command byte for byte, the terminator never equals a line, default shell iff no shebang; plus script() for 7 output shapes x 0-2 staged inputs.",
      "note": "Uses the system's bash and cat; local staging only."},
+]
+
+CHECKS += [
+    {"id": "C11", "engine": "threads", "level": "model_checking",
+     "technique": "preemption-bounded (CHESS-style) exploration of real threads at bytecode-instruction scheduling points",
+     "text": "18 harnesses around the real JobArrayer and its real monitor thread (1-2 adder threads, 1-2 descriptions, three size bounds) are "
+     "explored under every schedule with <=1 preemption (quick; the three smallest also <=2) / <=2 preemptions (thorough) at instruction-level "
+     "points; on_error never called, every job in exactly one legal batch, num_pending exact, no deadlock.",
+     "note": "GIL bytecode interleaving is the memory model; threading/time are replaced in redun.job_array's namespace; jobs are stand-ins. "
+     "The 'randomized stress' clause of the property is sampling and is not implemented."},
 ]
 
 _ALL = [f"C{i:02d}" for i in range(1, 39)]
